@@ -85,22 +85,22 @@ var pool = map[string][]string{
 	"Std::EndlessClosedRange":   {"1...", "1.5..."},
 	"Std::EndlessOpenRange":     {"1<..", "1.5<.."},
 
-	"Std::ArrayList::Iterator":        {"[1, 2, 3].iter", "::Std::ArrayList::[::Std::Int]().iter"},
-	"Std::ArrayTuple::Iterator":       {"%[1, 2, 3].iter"},
-	"Std::HashMap::Iterator":          {`{ "a" => 1 }.iter`},
-	"Std::HashRecord::Iterator":       {`%{ "a" => 1 }.iter`},
-	"Std::HashSet::Iterator":          {"^[1, 2].iter"},
-	"Std::Pair::Iterator":             {`::Std::Pair(1, 2).iter`},
-	"Std::ClosedRange::Iterator":      {"(1...3).iter"},
-	"Std::OpenRange::Iterator":        {"(1<.<4).iter"},
-	"Std::LeftOpenRange::Iterator":    {"(1<..3).iter"},
-	"Std::RightOpenRange::Iterator":   {"(1..<3).iter"},
+	"Std::ArrayList::Iterator":          {"[1, 2, 3].iter", "::Std::ArrayList::[::Std::Int]().iter"},
+	"Std::ArrayTuple::Iterator":         {"%[1, 2, 3].iter"},
+	"Std::HashMap::Iterator":            {`{ "a" => 1 }.iter`},
+	"Std::HashRecord::Iterator":         {`%{ "a" => 1 }.iter`},
+	"Std::HashSet::Iterator":            {"^[1, 2].iter"},
+	"Std::Pair::Iterator":               {`::Std::Pair(1, 2).iter`},
+	"Std::ClosedRange::Iterator":        {"(1...3).iter"},
+	"Std::OpenRange::Iterator":          {"(1<.<4).iter"},
+	"Std::LeftOpenRange::Iterator":      {"(1<..3).iter"},
+	"Std::RightOpenRange::Iterator":     {"(1..<3).iter"},
 	"Std::EndlessClosedRange::Iterator": {"(1...).iter"},
-	"Std::EndlessOpenRange::Iterator": {"(1<..).iter"},
-	"Std::Int::Iterator":              {"3.iter"},
-	"Std::String::CharIterator":       {`"ab".iter`, `"".char_iter`},
-	"Std::String::ByteIterator":       {`"ab".byte_iter`},
-	"Std::String::GraphemeIterator":   {`"ab".grapheme_iter`},
+	"Std::EndlessOpenRange::Iterator":   {"(1<..).iter"},
+	"Std::Int::Iterator":                {"3.iter"},
+	"Std::String::CharIterator":         {`"ab".iter`, `"".char_iter`},
+	"Std::String::ByteIterator":         {`"ab".byte_iter`},
+	"Std::String::GraphemeIterator":     {`"ab".grapheme_iter`},
 
 	"Std::Date":           {"::Std::Date(2024, 2, 29)", "::Std::Date(1999, 12, 31)"},
 	"Std::Time":           {"::Std::Time(13, 45, 7)", "::Std::Time(0, 0, 0)"},
@@ -111,36 +111,36 @@ var pool = map[string][]string{
 	"Std::Duration":       {"::Std::Time::Span(1, 30, 15)", "::Std::Date::Span(1, 2, 3)"},
 	"Std::Timezone":       {"::Std::Timezone::UTC", `::Std::Timezone["Europe/Warsaw"]`},
 
-	"Std::Channel":         {"::Std::Channel::[::Std::Int](2)"},
-	"Std::ReadChannel":     {"::Std::Channel::[::Std::Int](2).readonly"},
-	"Std::WriteChannel":    {"::Std::Channel::[::Std::Int](2).writeonly"},
-	"Std::Promise":         {"::Std::Promise.resolved(3)"},
-	"Std::Result":          {"::Std::Result.ok(3)", `::Std::Result.err(::Std::Error("bad"))`},
-	"Std::Box":             {"::Std::Box(3)"},
-	"Std::ImmutableBox":    {"::Std::ImmutableBox(3)"},
-	"Std::Weak":            {`::Std::Weak(::Std::ImmutableBox("abc"))`},
-	"Std::Sync::Mutex":     {"::Std::Sync::Mutex()"},
-	"Std::Sync::RWMutex":   {"::Std::Sync::RWMutex()"},
-	"Std::Sync::ROMutex":   {"::Std::Sync::RWMutex().to_read_only"},
-	"Std::Sync::WaitGroup": {"::Std::Sync::WaitGroup()", "::Std::Sync::WaitGroup(2)"},
-	"Std::Sync::Once":      {"::Std::Sync::Once()"},
-	"Std::Aborter":         {"::Std::Aborter()"},
-	"Std::ThreadPool":      {"::Std::ThreadPool(1, 2)"},
-	"Std::Closure":         {"|| -> 1"},
-	"Std::Class":           {"::Std::String", "::Std::Int"},
-	"Std::Mixin":           {"::Std::Tuple"},
-	"Std::Module":          {"::Std::Kernel"},
-	"Std::Interface":       {"::Std::Inspectable"},
-	"Std::StackTrace":      {"::Std::Debug.stack_trace"},
-	"Std::CallFrame":       {"::Std::Debug.stack_trace[0]"},
-	"Std::FS::Path":        {`::Std::FS::Path("/tmp/a/b.txt")`, `::Std::FS::Path("rel/c")`},
-	"Std::String::Position": {"::Std::String::Position(0, 1, 1)"},
-	"Std::String::Span":    {"::Std::String::Span(::Std::String::Position(0, 1, 1), ::Std::String::Position(2, 1, 3))"},
-	"Std::FS::Location":    {`::Std::FS::Location(::Std::FS::Path("a.elk"), ::Std::String::Span(::Std::String::Position(0, 1, 1), ::Std::String::Position(2, 1, 3)))`},
-	"Std::Diagnostic":      {`::Std::Diagnostic("msg", ::Std::FS::Location(::Std::FS::Path("a.elk"), ::Std::String::Span(::Std::String::Position(0, 1, 1), ::Std::String::Position(2, 1, 3))))`},
-	"Std::DiagnosticList":  {"::Std::DiagnosticList()"},
+	"Std::Channel":              {"::Std::Channel::[::Std::Int](2)"},
+	"Std::ReadChannel":          {"::Std::Channel::[::Std::Int](2).readonly"},
+	"Std::WriteChannel":         {"::Std::Channel::[::Std::Int](2).writeonly"},
+	"Std::Promise":              {"::Std::Promise.resolved(3)"},
+	"Std::Result":               {"::Std::Result.ok(3)", `::Std::Result.err(::Std::Error("bad"))`},
+	"Std::Box":                  {"::Std::Box(3)"},
+	"Std::ImmutableBox":         {"::Std::ImmutableBox(3)"},
+	"Std::Weak":                 {`::Std::Weak(::Std::ImmutableBox("abc"))`},
+	"Std::Sync::Mutex":          {"::Std::Sync::Mutex()"},
+	"Std::Sync::RWMutex":        {"::Std::Sync::RWMutex()"},
+	"Std::Sync::ROMutex":        {"::Std::Sync::RWMutex().to_read_only"},
+	"Std::Sync::WaitGroup":      {"::Std::Sync::WaitGroup()", "::Std::Sync::WaitGroup(2)"},
+	"Std::Sync::Once":           {"::Std::Sync::Once()"},
+	"Std::Aborter":              {"::Std::Aborter()"},
+	"Std::ThreadPool":           {"::Std::ThreadPool(1, 2)"},
+	"Std::Closure":              {"|| -> 1"},
+	"Std::Class":                {"::Std::String", "::Std::Int"},
+	"Std::Mixin":                {"::Std::Tuple"},
+	"Std::Module":               {"::Std::Kernel"},
+	"Std::Interface":            {"::Std::Inspectable"},
+	"Std::StackTrace":           {"::Std::Debug.stack_trace"},
+	"Std::CallFrame":            {"::Std::Debug.stack_trace[0]"},
+	"Std::FS::Path":             {`::Std::FS::Path("/tmp/a/b.txt")`, `::Std::FS::Path("rel/c")`},
+	"Std::String::Position":     {"::Std::String::Position(0, 1, 1)"},
+	"Std::String::Span":         {"::Std::String::Span(::Std::String::Position(0, 1, 1), ::Std::String::Position(2, 1, 3))"},
+	"Std::FS::Location":         {`::Std::FS::Location(::Std::FS::Path("a.elk"), ::Std::String::Span(::Std::String::Position(0, 1, 1), ::Std::String::Position(2, 1, 3)))`},
+	"Std::Diagnostic":           {`::Std::Diagnostic("msg", ::Std::FS::Location(::Std::FS::Path("a.elk"), ::Std::String::Span(::Std::String::Position(0, 1, 1), ::Std::String::Position(2, 1, 3))))`},
+	"Std::DiagnosticList":       {"::Std::DiagnosticList()"},
 	"Std::Sync::DiagnosticList": {"::Std::Sync::DiagnosticList()"},
-	"Std::Elk::Token":      {`::Std::Elk::Lexer.lex("1 + foo")[0]`},
+	"Std::Elk::Token":           {`::Std::Elk::Lexer.lex("1 + foo")[0]`},
 
 	"Std::String::Convertible": {`"abc"`, "3", ":foo"},
 	"Std::Inspectable":         {"3", `"abc"`},
@@ -148,28 +148,28 @@ var pool = map[string][]string{
 	"Std::Colorizer":           {},
 
 	// AST: mixins are served by a few concrete node classes
-	"Std::Elk::AST::Node":                 {`::Std::Elk::AST::IntLiteralNode("1")`, `::Std::Elk::AST::NilLiteralNode()`},
-	"Std::Elk::AST::ExpressionNode":       {`::Std::Elk::AST::IntLiteralNode("1")`, `::Std::Elk::AST::NilLiteralNode()`, `::Std::Elk::AST::PublicIdentifierNode("foo")`},
-	"Std::Elk::AST::StatementNode":        {`::Std::Elk::AST::ExpressionStatementNode(::Std::Elk::AST::IntLiteralNode("1"))`},
-	"Std::Elk::AST::PatternNode":          {`::Std::Elk::AST::IntLiteralNode("1")`, `::Std::Elk::AST::PublicIdentifierNode("foo")`},
-	"Std::Elk::AST::PatternExpressionNode": {`::Std::Elk::AST::IntLiteralNode("1")`},
-	"Std::Elk::AST::LiteralPatternNode":   {`::Std::Elk::AST::IntLiteralNode("1")`},
-	"Std::Elk::AST::TypeNode":             {`::Std::Elk::AST::PublicConstantNode("Foo")`, `::Std::Elk::AST::NilLiteralNode()`},
-	"Std::Elk::AST::ComplexConstantNode":  {`::Std::Elk::AST::PublicConstantNode("Foo")`},
-	"Std::Elk::AST::ConstantNode":         {`::Std::Elk::AST::PublicConstantNode("Foo")`},
-	"Std::Elk::AST::IdentifierNode":       {`::Std::Elk::AST::PublicIdentifierNode("foo")`, `::Std::Elk::AST::PrivateIdentifierNode("_foo")`},
-	"Std::Elk::AST::InstanceVariableNode": {`::Std::Elk::AST::PublicInstanceVariableNode("foo")`},
-	"Std::Elk::AST::PrivateIdentifierNode": {`::Std::Elk::AST::PrivateIdentifierNode("_foo")`},
-	"Std::Elk::AST::PrivateConstantNode":   {`::Std::Elk::AST::PrivateConstantNode("_Foo")`},
-	"Std::Elk::AST::StringLiteralNode":    {`::Std::Elk::AST::DoubleQuotedStringLiteralNode("foo")`},
-	"Std::Elk::AST::SimpleStringLiteralNode": {`::Std::Elk::AST::DoubleQuotedStringLiteralNode("foo")`},
-	"Std::Elk::AST::SymbolLiteralNode":    {`::Std::Elk::AST::SimpleSymbolLiteralNode("foo")`},
-	"Std::Elk::AST::NamedArgumentNode":    {`::Std::Elk::AST::NamedCallArgumentNode(::Std::Elk::AST::PublicIdentifierNode("foo"), ::Std::Elk::AST::IntLiteralNode("1"))`},
-	"Std::Elk::AST::ParameterNode":        {`::Std::Elk::AST::FormalParameterNode(::Std::Elk::AST::PublicIdentifierNode("foo"), 0u8)`},
-	"Std::Elk::AST::TypeParameterNode":    {`::Std::Elk::AST::VariantTypeParameterNode("T")`},
-	"Std::Elk::AST::UsingEntryNode":       {`::Std::Elk::AST::PublicConstantNode("Foo")`},
-	"Std::Elk::AST::UsingSubentryNode":    {`::Std::Elk::AST::PublicConstantNode("Foo")`},
-	"Std::Elk::AST::StructBodyStatementNode": {`::Std::Elk::AST::ParameterStatementNode(::Std::Elk::AST::AttributeParameterNode(::Std::Elk::AST::PublicIdentifierNode("foo")))`},
+	"Std::Elk::AST::Node":                        {`::Std::Elk::AST::IntLiteralNode("1")`, `::Std::Elk::AST::NilLiteralNode()`},
+	"Std::Elk::AST::ExpressionNode":              {`::Std::Elk::AST::IntLiteralNode("1")`, `::Std::Elk::AST::NilLiteralNode()`, `::Std::Elk::AST::PublicIdentifierNode("foo")`},
+	"Std::Elk::AST::StatementNode":               {`::Std::Elk::AST::ExpressionStatementNode(::Std::Elk::AST::IntLiteralNode("1"))`},
+	"Std::Elk::AST::PatternNode":                 {`::Std::Elk::AST::IntLiteralNode("1")`, `::Std::Elk::AST::PublicIdentifierNode("foo")`},
+	"Std::Elk::AST::PatternExpressionNode":       {`::Std::Elk::AST::IntLiteralNode("1")`},
+	"Std::Elk::AST::LiteralPatternNode":          {`::Std::Elk::AST::IntLiteralNode("1")`},
+	"Std::Elk::AST::TypeNode":                    {`::Std::Elk::AST::PublicConstantNode("Foo")`, `::Std::Elk::AST::NilLiteralNode()`},
+	"Std::Elk::AST::ComplexConstantNode":         {`::Std::Elk::AST::PublicConstantNode("Foo")`},
+	"Std::Elk::AST::ConstantNode":                {`::Std::Elk::AST::PublicConstantNode("Foo")`},
+	"Std::Elk::AST::IdentifierNode":              {`::Std::Elk::AST::PublicIdentifierNode("foo")`, `::Std::Elk::AST::PrivateIdentifierNode("_foo")`},
+	"Std::Elk::AST::InstanceVariableNode":        {`::Std::Elk::AST::PublicInstanceVariableNode("foo")`},
+	"Std::Elk::AST::PrivateIdentifierNode":       {`::Std::Elk::AST::PrivateIdentifierNode("_foo")`},
+	"Std::Elk::AST::PrivateConstantNode":         {`::Std::Elk::AST::PrivateConstantNode("_Foo")`},
+	"Std::Elk::AST::StringLiteralNode":           {`::Std::Elk::AST::DoubleQuotedStringLiteralNode("foo")`},
+	"Std::Elk::AST::SimpleStringLiteralNode":     {`::Std::Elk::AST::DoubleQuotedStringLiteralNode("foo")`},
+	"Std::Elk::AST::SymbolLiteralNode":           {`::Std::Elk::AST::SimpleSymbolLiteralNode("foo")`},
+	"Std::Elk::AST::NamedArgumentNode":           {`::Std::Elk::AST::NamedCallArgumentNode(::Std::Elk::AST::PublicIdentifierNode("foo"), ::Std::Elk::AST::IntLiteralNode("1"))`},
+	"Std::Elk::AST::ParameterNode":               {`::Std::Elk::AST::FormalParameterNode(::Std::Elk::AST::PublicIdentifierNode("foo"), 0u8)`},
+	"Std::Elk::AST::TypeParameterNode":           {`::Std::Elk::AST::VariantTypeParameterNode("T")`},
+	"Std::Elk::AST::UsingEntryNode":              {`::Std::Elk::AST::PublicConstantNode("Foo")`},
+	"Std::Elk::AST::UsingSubentryNode":           {`::Std::Elk::AST::PublicConstantNode("Foo")`},
+	"Std::Elk::AST::StructBodyStatementNode":     {`::Std::Elk::AST::ParameterStatementNode(::Std::Elk::AST::AttributeParameterNode(::Std::Elk::AST::PublicIdentifierNode("foo")))`},
 	"Std::Elk::AST::IntCollectionContentNode":    {`::Std::Elk::AST::IntLiteralNode("1")`},
 	"Std::Elk::AST::WordCollectionContentNode":   {`::Std::Elk::AST::RawStringLiteralNode("a")`},
 	"Std::Elk::AST::SymbolCollectionContentNode": {`::Std::Elk::AST::SimpleSymbolLiteralNode("a")`},
@@ -181,26 +181,26 @@ var pool = map[string][]string{
 // bindings of class-level type parameters for generic receivers, chosen to agree with the pool literals
 // (index = position in the pool list); parameter names are those of the headers.
 var recvBind = map[string][]map[string]string{
-	"Std::ArrayList":  {{"Val": "Std::Int"}, {"Val": "Std::String"}, {"Val": "Std::Int"}},
-	"Std::ArrayTuple": {{"Val": "Std::Int"}, {"Val": "Std::String"}},
-	"Std::HashMap":    {{"Key": "Std::String", "Value": "Std::Int"}, {"Key": "Std::Int", "Value": "Std::String"}},
-	"Std::HashRecord": {{"Key": "Std::String", "Value": "Std::Int"}, {"Key": "Std::Int", "Value": "Std::String"}},
-	"Std::HashSet":    {{"Val": "Std::Int"}, {"Val": "Std::String"}},
-	"Std::Pair":       {{"Key": "Std::Int", "Value": "Std::String"}, {"Key": "Std::String", "Value": "Std::Int"}},
-	"Std::ClosedRange": {{"Val": "Std::Int"}, {"Val": "Std::String"}},
-	"Std::OpenRange":  {{"Val": "Std::Int"}, {"Val": "Std::Float"}},
-	"Std::LeftOpenRange": {{"Val": "Std::Int"}, {"Val": "Std::Float"}},
-	"Std::RightOpenRange": {{"Val": "Std::Int"}, {"Val": "Std::Float"}},
+	"Std::ArrayList":            {{"Val": "Std::Int"}, {"Val": "Std::String"}, {"Val": "Std::Int"}},
+	"Std::ArrayTuple":           {{"Val": "Std::Int"}, {"Val": "Std::String"}},
+	"Std::HashMap":              {{"Key": "Std::String", "Value": "Std::Int"}, {"Key": "Std::Int", "Value": "Std::String"}},
+	"Std::HashRecord":           {{"Key": "Std::String", "Value": "Std::Int"}, {"Key": "Std::Int", "Value": "Std::String"}},
+	"Std::HashSet":              {{"Val": "Std::Int"}, {"Val": "Std::String"}},
+	"Std::Pair":                 {{"Key": "Std::Int", "Value": "Std::String"}, {"Key": "Std::String", "Value": "Std::Int"}},
+	"Std::ClosedRange":          {{"Val": "Std::Int"}, {"Val": "Std::String"}},
+	"Std::OpenRange":            {{"Val": "Std::Int"}, {"Val": "Std::Float"}},
+	"Std::LeftOpenRange":        {{"Val": "Std::Int"}, {"Val": "Std::Float"}},
+	"Std::RightOpenRange":       {{"Val": "Std::Int"}, {"Val": "Std::Float"}},
 	"Std::BeginlessClosedRange": {{"Val": "Std::Int"}, {"Val": "Std::Float"}},
-	"Std::BeginlessOpenRange": {{"Val": "Std::Int"}, {"Val": "Std::Float"}},
-	"Std::EndlessClosedRange": {{"Val": "Std::Int"}, {"Val": "Std::Float"}},
-	"Std::EndlessOpenRange": {{"Val": "Std::Int"}, {"Val": "Std::Float"}},
+	"Std::BeginlessOpenRange":   {{"Val": "Std::Int"}, {"Val": "Std::Float"}},
+	"Std::EndlessClosedRange":   {{"Val": "Std::Int"}, {"Val": "Std::Float"}},
+	"Std::EndlessOpenRange":     {{"Val": "Std::Int"}, {"Val": "Std::Float"}},
 	"Std::String::CharIterator": {{"Val": "Std::Char"}, {"Val": "Std::Char"}},
-	"Std::Result":     {{"Val": "Std::Int", "Err": "Std::Error"}, {"Val": "Std::Int", "Err": "Std::Error"}},
-	"Std::Weak":       {{"Val": "Std::String"}},
-	"Std::HashMap::Iterator": {{"Key": "Std::String", "Value": "Std::Int"}},
+	"Std::Result":               {{"Val": "Std::Int", "Err": "Std::Error"}, {"Val": "Std::Int", "Err": "Std::Error"}},
+	"Std::Weak":                 {{"Val": "Std::String"}},
+	"Std::HashMap::Iterator":    {{"Key": "Std::String", "Value": "Std::Int"}},
 	"Std::HashRecord::Iterator": {{"Key": "Std::String", "Value": "Std::Int"}},
-	"Std::Pair::Iterator": {{"Key": "Std::Int", "Value": "Std::Int"}},
+	"Std::Pair::Iterator":       {{"Key": "Std::Int", "Value": "Std::Int"}},
 }
 
 // default binding of any other type parameter name (class level: the pool literals use Int elements)
@@ -217,7 +217,6 @@ type exclusion struct {
 var exclusions = []exclusion{
 	{regexp.MustCompile(`^Std::(Channel|ReadChannel)#(pop|next|<<@)$`), "blocks by design on the generated (empty, open) channel"},
 	{regexp.MustCompile(`^Std::Sync::WaitGroup#wait$`), "blocks by design when the counter of the generated wait group is positive"},
-	{regexp.MustCompile(`^Std::Sync::(Mutex|RWMutex|ROMutex)#(unlock|read_unlock)$`), "unlocking a mutex that is not locked is a Go fatal error by design of sync.Mutex (C25's subject)"},
 	{regexp.MustCompile(`^Std::Kernel\.(sleep|timeout)$`), "sleeps/timeouts: wall-clock behaviour"},
 	{regexp.MustCompile(`^Std::Kernel\.exit$`), "terminates the process"},
 	{regexp.MustCompile(`^Std::Aborter\.(deadline|timeout)$`), "starts wall-clock timers"},
@@ -981,7 +980,7 @@ type itemResult struct {
 	diag     string
 	ready    bool
 	recv     value.Value // the receiver value (undefined until the receiver expression has been evaluated)
-	tag      string // "ok", "err", "" (nothing recorded: the run did not get there)
+	tag      string      // "ok", "err", "" (nothing recorded: the run did not get there)
 	val      value.Value
 	panicked string
 	stack    string
